@@ -39,6 +39,8 @@ func checkC06(c *Ctx, r *Report) {
 	borrow(c, r, c05R2b, "C05.R2.lexer-type-state", "C06.R6.lexer-type-state", 3, "every way the lexer classifies a token as a record type also records that the type was seen", nil, "after a type written as TYPEnnn the RDATA words are still read as keywords, and a line the mnemonic spelling parses is refused")
 	absoluteValidated(c, r, "C06.R1.absolute-validated", "a relative name is completed with the origin without the result being validated as a whole (or it is validated by something other than IsDomainName): names whose completed form is legal are refused, or illegal ones returned")
 	ownerOnlyAtRecordEnd(c, r, "C06.R2.owner-at-record-end")
+	borrow(c, r, c07R2, "C07.R2.generate", "C06.R5.generate-range", 1, "$GENERATE refuses a range by its number of steps, not by the distance between start and stop", func(k string) bool { return strings.Contains(k, "range-guard") }, "a range with a step above one whose distance exceeds 65535 while its step count does not is refused")
+	originQualified(c, r, "C06.R2.origin-qualified", "the origin given as the parser option (and inherited by $INCLUDE and $GENERATE sub-parsers) is not the name relative names are completed with as it was given: it is not fully qualified, or its case is changed")
 }
 
 // mustPassExit is mustPass restricted to the exits accepted by isExit.
